@@ -61,6 +61,7 @@ struct Table {
 
     inline size_t size() const { return v.size(); }
     bool exact() const;
+    bool pow2() const;          // every value is 0 or +-2^k (exact under float products and normalisation)
     bool same(const Table &o) const;
     bool close(const Table &o) const;
     uint64_t hash() const;
